@@ -77,7 +77,7 @@ pub fn source(template: usize, params: &Json) -> (String, usize, bool) {
         // 5: deep call chain (depth 4) inside loops
         _ => {
             let s = format!(
-                "CONFIGURATION C\n{globals}TASK T0 (INTERVAL := T#{i0}ms, PRIORITY := {pr0});\nTASK T1 (INTERVAL := T#{i1}ms, PRIORITY := {pr1});\nPROGRAM P0 WITH T0 : Main;\nPROGRAM P1 WITH T1 : Aux;\nEND_CONFIGURATION\n\n{leaf}{mid}FUNCTION Deep3 : DINT\nVAR_INPUT\n  x : DINT;\nEND_VAR\nDeep3 := Mid(x, 2) + 1;\nEND_FUNCTION\n\nFUNCTION Deep4 : DINT\nVAR_INPUT\n  x : DINT;\nEND_VAR\nVAR\n  y : DINT;\nEND_VAR\ny := Deep3(x);\nIF y > {c1} THEN\n  y := Deep3(y - {c1});\nEND_IF;\nDeep4 := y;\nEND_FUNCTION\n\nPROGRAM Main\nVAR_EXTERNAL\n  g_acc : DINT;\n  g_cnt : DINT;\nEND_VAR\nVAR\n  i : DINT;\nEND_VAR\ng_cnt := g_cnt + 1;\nFOR i := 1 TO {n1} DO\n  g_acc := g_acc + Deep4(i + g_cnt);\nEND_FOR;\ng_acc := g_acc + 1;\nEND_PROGRAM\n\nPROGRAM Aux\nVAR_EXTERNAL\n  g_aux : DINT;\n  g_flag : BOOL;\nEND_VAR\ng_aux := g_aux + Deep3({c2});\ng_flag := NOT g_flag;\nEND_PROGRAM\n"
+                "CONFIGURATION C\n{globals}TASK T0 (INTERVAL := T#{i0}ms, PRIORITY := {pr0});\nTASK T1 (INTERVAL := T#{i1}ms, PRIORITY := {pr1});\nPROGRAM P0 WITH T0 : Main;\nPROGRAM P1 WITH T1 : Aux;\nEND_CONFIGURATION\n\n{leaf}{mid}FUNCTION Deep3 : DINT\nVAR_INPUT\n  x : DINT;\nEND_VAR\nDeep3 := Mid(x, 2) + 1;\nEND_FUNCTION\n\nFUNCTION Deep4 : DINT\nVAR_INPUT\n  x : DINT;\nEND_VAR\nVAR\n  y : DINT;\nEND_VAR\ny := Deep3(x);\nIF y > {c1} THEN\n  y := Deep3(y - {c1});\nEND_IF;\nDeep4 := y;\nEND_FUNCTION\n\nPROGRAM Main\nVAR_EXTERNAL\n  g_acc : DINT;\n  g_cnt : DINT;\nEND_VAR\nVAR\n  i : DINT;\nEND_VAR\ng_cnt := g_cnt + 1;\nFOR i := 1 TO {n1} DO\n  L1: g_acc := g_acc + Deep4(i + g_cnt);\nEND_FOR;\ng_acc := g_acc + 1;\nEND_PROGRAM\n\nPROGRAM Aux\nVAR_EXTERNAL\n  g_aux : DINT;\n  g_flag : BOOL;\nEND_VAR\nL2: g_aux := g_aux + Deep3({c2});\ng_flag := NOT g_flag;\nEND_PROGRAM\n"
             );
             (s, 2, false)
         }
